@@ -207,6 +207,7 @@ func (in *Interp) opaqueMethod(op *Opaque, name string, pos token.Pos) Value {
 				if !in.settle(it) {
 					in.goPanic(pos, "iterator is invalid", nil)
 				}
+				in.noSpec("iterator advance")
 				it.pos++
 				return nil
 			})
